@@ -160,3 +160,40 @@ Proof.
   destruct (entry_env d0 args) as [e0|] eqn:EE; [|discriminate].
   unfold entry_env in EE. apply XS.bind_length in EE. unfold vars in EE. rewrite !map_length in EE. auto.
 Qed.
+
+(* the layout facts used above, as one statement about the image of any instruction list that passes
+   the assembler-level check (evaluated on the REAL output on every run, C14) *)
+Theorem rv_image_layout cs :
+  asm_wf cs = None ->
+  let im := mk_image (cs ++ [LAB "cleanup"%string]) in
+  placed im 1%positive (cs ++ [LAB "cleanup"%string]) /\ rimg_ok im /\ duplicate_labels im = [] /\
+  find_label (labels im) "cleanup" = Some (padd 1%positive (List.length cs)) /\
+  PM.find (Pos.succ (padd 1%positive (List.length cs))) (code im) = None /\
+  (forall pc c, PM.find pc (code im) = Some c -> instr_wf c = true) /\
+  (forall pc a, PM.find pc (addr_of im) = Some a -> a mod 2 = 0).
+Proof.
+  intros WF im. set (full := cs ++ [LAB "cleanup"%string]) in *.
+  pose proof (asm_wf_labels cs WF) as NDL. fold full in NDL.
+  assert (PLF : placed im 1%positive full).
+  { pose proof (placed_mk_image [] full []) as H. cbn [app List.length padd] in H. rewrite app_nil_r in H. exact (H NDL). }
+  assert (NTH : nth_error full (List.length cs) = Some (LAB "cleanup"%string)) by (unfold full; apply nth_error_mid).
+  split; [exact PLF|]. split; [apply mk_image_ok|]. split; [apply duplicate_labels_nil; exact NDL|].
+  split; [exact (proj2 PLF _ _ NTH)|]. split; [|split].
+  - rewrite <- padd_1', <- padd_add. replace (List.length cs + 1)%nat with (List.length full) by (unfold full; now rewrite app_length).
+    apply mk_image_code_end.
+  - intros pc c Hc. apply mk_image_code_in in Hc. unfold full in Hc. apply in_app_or in Hc as [Hc|[<-|[]]]; [|reflexivity].
+    apply (asm_wf_enc cs WF c Hc).
+  - apply mk_image_even.
+Qed.
+
+(* the end-to-end statement `rv_codegen_correct` of Props/C08.v for the fragment: runs that end with a result *)
+Corollary rv_codegen_correct_cf p lc lc' cs n args z fuel :
+  XPC.cf_frag p = true -> XTC.entry_int p = true -> lin_check_prog p = true ->
+  asm_wf cs = None -> code_small cs = true -> Nat.leb (main_arity p) 14 = true ->
+  rv_compile p lc = Ok (cs, n, lc') ->
+  run_linear fuel p args = ([], OExit z) ->
+  exists outer inner, fst (run_rv outer inner cs args) = ([], OExit z).
+Proof.
+  intros CF EI LIN WF SM CAP XC RUN.
+  eapply rv_codegen_simulates_cf; eauto; [eapply arity_from_good; eauto|discriminate].
+Qed.
